@@ -21,7 +21,7 @@ func allGenuine() [][]byte {
 
 func TestPropTLV(t *testing.T) {
 	seeds := allGenuine()
-	evid.RapidCheck(t, 24000, 600000, func(rt *rapid.T) {
+	evid.RapidCheck(t, 40000, 400000, func(rt *rapid.T) {
 		data, cls := genInput(rt, seeds, -1, 30000)
 		run := rapid.SampledFrom([]string{"tlv-decode", "tlv-decode", "tlv-unwrap"}).Draw(rt, "run")
 		st := dispatch(rt, caseDesc{Run: run, Data: data})
@@ -40,7 +40,7 @@ func smSeeds() [][]byte {
 
 func TestPropApduSM(t *testing.T) {
 	seeds := smSeeds()
-	evid.RapidCheck(t, 20000, 500000, func(rt *rapid.T) {
+	evid.RapidCheck(t, 40000, 400000, func(rt *rapid.T) {
 		if rapid.IntRange(0, 3).Draw(rt, "which") == 0 {
 			data, cls := genInput(rt, seeds, -1, 70000)
 			st := dispatch(rt, caseDesc{Run: "rapdu", Data: data})
@@ -56,7 +56,7 @@ func TestPropApduSM(t *testing.T) {
 }
 
 func TestPropLDS(t *testing.T) {
-	evid.RapidCheck(t, 36000, 900000, func(rt *rapid.T) {
+	evid.RapidCheck(t, 120000, 1200000, func(rt *rapid.T) {
 		which := rapid.IntRange(0, nKinds+3).Draw(rt, "target")
 		switch {
 		case which < nKinds:
@@ -139,7 +139,7 @@ func TestPropCMS(t *testing.T) {
 		}
 		return out
 	}()
-	evid.RapidCheck(t, 12000, 300000, func(rt *rapid.T) {
+	evid.RapidCheck(t, 16000, 160000, func(rt *rapid.T) {
 		switch rapid.IntRange(0, 2).Draw(rt, "target") {
 		case 0:
 			data, cls := genInput(rt, sdSeeds, -1, 20000)
@@ -170,7 +170,7 @@ var mrzSeeds = []string{
 }
 
 func TestPropMRZ(t *testing.T) {
-	evid.RapidCheck(t, 20000, 500000, func(rt *rapid.T) {
+	evid.RapidCheck(t, 40000, 400000, func(rt *rapid.T) {
 		var data []byte
 		cls := "random"
 		switch rapid.IntRange(0, 4).Draw(rt, "mk") {
@@ -237,7 +237,7 @@ func specKey(s *docSpec) []byte {
 }
 
 func TestPropEvidence(t *testing.T) {
-	evid.RapidCheck(t, 9000, 200000, func(rt *rapid.T) {
+	evid.RapidCheck(t, 24000, 240000, func(rt *rapid.T) {
 		which := rapid.IntRange(0, 2).Draw(rt, "mech")
 		s := genDocSpec(rt, 1<<which)
 		run := []string{"evidence-ca", "evidence-pace", "evidence-aa"}[which]
@@ -270,7 +270,7 @@ func genBlob(rt *rapid.T, s *docSpec) []byte {
 }
 
 func TestPropCborVerifier(t *testing.T) {
-	evid.RapidCheck(t, 9000, 200000, func(rt *rapid.T) {
+	evid.RapidCheck(t, 24000, 240000, func(rt *rapid.T) {
 		s := genDocSpec(rt, 7)
 		run := rapid.SampledFrom([]string{"document-cbor", "verifiable-doc", "verifier", "verifier"}).Draw(rt, "run")
 		mode := rapid.IntRange(0, 4).Draw(rt, "mode")
@@ -294,7 +294,7 @@ func TestPropCborVerifier(t *testing.T) {
 }
 
 func TestPropSummaryJSON(t *testing.T) {
-	evid.RapidCheck(t, 6000, 150000, func(rt *rapid.T) {
+	evid.RapidCheck(t, 16000, 160000, func(rt *rapid.T) {
 		s := genDocSpec(rt, 7)
 		st := dispatch(rt, caseDesc{Run: "summary", Spec: s})
 		record("summary", specClass(s), st, specKey(s))
@@ -302,7 +302,7 @@ func TestPropSummaryJSON(t *testing.T) {
 }
 
 func TestPropReader(t *testing.T) {
-	evid.RapidCheck(t, 3000, 60000, func(rt *rapid.T) {
+	evid.RapidCheck(t, 16000, 160000, func(rt *rapid.T) {
 		s := genDocSpec(rt, 0)
 		flags := rapid.IntRange(0, 31).Draw(rt, "flags")
 		if rapid.IntRange(0, 3).Draw(rt, "rawchip") != 0 {
